@@ -7,6 +7,53 @@ from vlib import Verdict, workdir, rng
 PID = "C18"
 
 
+def directed(r, wd):
+    """a name server host H known at first only by its non-preferred address; the server at that address is
+    authoritative for the parent zone only and refers to a child zone served by the same host name, with glue of
+    both families; the child is served at H's preferred-family address"""
+    items, meta = [], []
+    for protocol in ("prefer-v4", "prefer-v6"):
+        for z in (["example"], ["corp", "test"]):
+            pref4 = protocol == "prefer-v4"
+            h = ["ns"] + z
+            h4, h6 = "10.50.0.%d" % r.randint(2, 200), "fd00::50:%x" % r.randint(2, 200)
+            rootns, r4, r6 = ["a", "root-servers"], "10.1.0.1", "fd00::1:1"
+            c = ["sub"] + z
+            tld = z[-1:]
+            zones = []
+            root_recs = [rc.rr([], "NS", rc.dotted(rootns), rootns, ttl=3600), rc.rr(rootns, "A", r4, ttl=3600),
+                         rc.rr(rootns, "AAAA", r6, ttl=3600),
+                         rc.rr(z if len(z) == 1 else tld, "NS", rc.dotted(h), h, ttl=3600)]
+            zones.append(rc.zone([], root_recs))
+            apex_z = z if len(z) == 1 else tld
+            zrecs = [rc.rr(apex_z, "NS", rc.dotted(h), h, ttl=3600), rc.rr(h, "A", h4, ttl=3600), rc.rr(h, "AAAA", h6, ttl=3600),
+                     rc.rr(c, "NS", rc.dotted(h), h, ttl=3600), rc.rr(["www"] + z, "A", "192.0.2.7")]
+            zones.append(rc.zone(apex_z, zrecs))
+            zones.append(rc.zone(c, [rc.rr(c, "NS", rc.dotted(h), h, ttl=3600), rc.rr(["www"] + c, "A", "192.0.2.9"),
+                                     rc.rr(["www"] + c, "AAAA", "2001:db8::9")]))
+            pref_addr, other_addr = (h4, h6) if pref4 else (h6, h4)
+            servers = [{"addr": r4, "v": 4, "apexes": [[]]}, {"addr": r6, "v": 6, "apexes": [[]]},
+                       {"addr": other_addr, "v": 6 if pref4 else 4, "apexes": [apex_z]},
+                       {"addr": pref_addr, "v": 4 if pref4 else 6, "apexes": [apex_z, c]}]
+            uni = {"zones": zones, "servers": servers}
+            names = [["www"] + c, ["www"] + z, h, c, apex_z, rootns]
+            u = {"universe": uni, "names": names}
+            items.append({"universe": uni, "ask": rc.asks_for(u, uc.TYPES), "forwarder_ip": "10.9.9.9"})
+            hints = rc.zone([], [rc.rr([], "NS", rc.dotted(rootns), rootns, ttl=3600), rc.rr(rootns, "A", r4, ttl=3600),
+                                 rc.rr(rootns, "AAAA", r6, ttl=3600)], auth=False)
+            cache = [{"name": apex_z, "type": "NS", "data": rc.dotted(h), "target": h, "ttl": 3000},
+                     {"name": h, "type": "AAAA" if pref4 else "A", "data": other_addr, "target": [], "ttl": 3000}]
+            hostaddrs = [{"host": h, "v": 4, "addr": h4}, {"host": h, "v": 6, "addr": h6},
+                         {"host": rootns, "v": 4, "addr": r4}, {"host": rootns, "v": 6, "addr": r6}]
+            meta.append((hints, cache, protocol, uni, hostaddrs, [{"name": ["www"] + c, "type": "A"}, {"name": ["www"] + c, "type": "AAAA"}]))
+    tables = rc.reply_tables(wd, items)
+    out = []
+    for (hints, cache, protocol, uni, hostaddrs, qs), tab in zip(meta, tables):
+        out.append(rc.scenario([hints], cache, "recursive", qs, table=rc.table_entries(tab), default={"rcode": 5},
+                               protocol=protocol, universe=uni, expect_truth=False, hostaddrs=hostaddrs))
+    return out
+
+
 def run(tier):
     v = Verdict(PID, tier, "model_checking")
     v.rule = ("Universes as in C07 but with name servers that are IPv4-only, IPv6-only or dual-stack (addresses learnt "
@@ -22,7 +69,8 @@ def run(tier):
     r_ = rng(18)
     n = 80 if tier == "quick" else 2000
     scs = uc.universe_scenarios(r_, wd, n, [1, 2, 2, 3, 3, 4], "mixed", ["only-v4", "prefer-v4", "prefer-v6", "only-v6"],
-                                False, nq=(2, 5), forwarding_p=0.15)
+                                False, nq=(2, 5), forwarding_p=0.15, partial_hints_p=0.3, fault_p=0.4)
+    scs += directed(r_, wd)
     lines, rejects = rc.run_scenarios(v, PID, wd, "tv", scs, chunk=40)
     fam = {}
     for ln in lines:
